@@ -877,6 +877,14 @@ func variants(script string) []string {
 	return vs
 }
 
+type firstOb struct {
+	in nsx.Input
+	ob runObs
+}
+
+// the first executions of the run (corpus entries and canaries first), re-executed at the end of the run
+var firstObs []firstOb
+
 func one(r *vx.Run, in nsx.Input) {
 	cacheCheck(r, in, in.Script)
 	for _, v := range variants(in.Script) {
@@ -884,6 +892,9 @@ func one(r *vx.Run, in nsx.Input) {
 	}
 	cacheCheck(r, in, in.Script)
 	ob := observe(in)
+	if len(firstObs) < 60 {
+		firstObs = append(firstObs, firstOb{in, ob})
+	}
 	ast := nsx.Parse(in.Script)
 	oracles(r, in, ast, ob)
 	if ob.Prog != nil && ob.Panic == "" {
@@ -965,6 +976,60 @@ func boundaryFamily() []nsx.Input {
 					out = append(out, nsx.Input{Script: allot, Vars: map[string]string{}, Balances: bal, Meta: map[string]map[string]string{}, Note: "boundary:allotment-same-account"})
 				}
 			}
+		}
+	}
+	// save between two takes: what a save keeps back is never handed out again, whatever the sign of the balance
+	for _, b := range []int64{-5, 0, 10} {
+		bal := map[string]map[string]string{"a": {"USD": fmt.Sprint(b)}, "c": {"USD": "4"}}
+		for i1, ov1 := range ovs {
+			for _, ov2 := range ovs[:2] {
+				lim1 := b
+				if i1 == 1 {
+					lim1 += 5
+				}
+				for _, x1 := range []int64{0, lim1} {
+					if x1 < 0 {
+						continue
+					}
+					for _, sv := range []string{"[USD 0]", "[USD 1]", "[USD 100]", "[USD *]"} {
+						for _, d := range []int64{-1, 0, 1, 4, 5, 6, 10} {
+							x2 := b - x1 + d
+							if x2 < 0 {
+								continue
+							}
+							sc := send(x1, "@a"+ov1, "@b") + "save " + sv + " from @a\n" + send(x2, "@a"+ov2, "@b")
+							out = append(out, nsx.Input{Script: sc, Vars: map[string]string{}, Balances: bal, Meta: map[string]map[string]string{}, Note: "boundary:save-between"})
+						}
+						// saved, then credited, then spent; and the next script must not see anything of it
+						sc := "save " + sv + " from @a\n" + send(7, "@world", "@a") + send(3, "@a"+ov2, "@b")
+						out = append(out, nsx.Input{Script: sc, Vars: map[string]string{}, Balances: bal, Meta: map[string]map[string]string{}, Note: "boundary:save-then-credit"})
+						sc = send(x1, "@a"+ov1, "@b") + "save " + sv + " from @a\n" + send(7, "@c", "@a") + send(2, "@a", "@c")
+						out = append(out, nsx.Input{Script: sc, Vars: map[string]string{}, Balances: bal, Meta: map[string]map[string]string{}, Note: "boundary:save-then-credit"})
+					}
+				}
+			}
+		}
+	}
+	// variable values as a client or the metadata table may spell them: every declarable type x well-formed and
+	// malformed spellings, given directly and through meta(); the script uses the variable where its type allows
+	uses := map[string]string{
+		"account":  "send [USD 1] (\n  source = @world\n  destination = $v\n)\n",
+		"asset":    "send [$v 1] (\n  source = @world\n  destination = @b\n)\n",
+		"number":   "set_tx_meta(\"n\", $v)\nsend [USD 1] (\n  source = @world\n  destination = @b\n)\n",
+		"monetary": "send $v (\n  source = @world\n  destination = @b\n)\n",
+		"portion":  "send [USD 10] (\n  source = @world\n  destination = {\n    $v to @b\n    remaining to @c\n  }\n)\n",
+		"string":   "set_tx_meta(\"s\", $v)\n",
+	}
+	spellings := []string{"", " ", "0", "1", "100", "-1", "1.5", "1e3", "007", "18446744073709551616", "340282366920938463463374607431768211456",
+		"USD", "USD 1", "USD 0", "USD -5", "USD 1 2", " USD 5", "USD  5", "USD 5 ", "USD 1.5", "5 USD", "USD/2 10", "USD/2 0010", "usd 5", "USD/ 5",
+		"USD 99999999999999999999999999999999", "EUR/2", "USD/99999999999999999999", "a", "a:b", "a::b", ":", "a b", "@a", "world", "WORLD", "é",
+		"1/2", "3/2", "1/0", "0/1", "-1/2", "1/", "/2", "50%", "101%", "0%", "100%", "12.5%", "%", "0.5", "null", "true", "[]", "{}", "\"x\"", "\\"}
+	for _, ty := range []string{"account", "asset", "number", "monetary", "portion", "string"} {
+		for _, sp := range spellings {
+			sc := "vars {\n  " + ty + " $v\n}\n" + uses[ty]
+			out = append(out, nsx.Input{Script: sc, Vars: map[string]string{"v": sp}, Balances: map[string]map[string]string{}, Meta: map[string]map[string]string{}, Note: "boundary:variable-spelling"})
+			sc = "vars {\n  " + ty + " $v = meta(@cfg, \"k\")\n}\n" + uses[ty]
+			out = append(out, nsx.Input{Script: sc, Vars: map[string]string{}, Balances: map[string]map[string]string{}, Meta: map[string]map[string]string{"cfg": {"k": sp}}, Note: "boundary:variable-spelling-meta"})
 		}
 	}
 	// many ordered sources (fundings of more than a dozen parts) under destinations that keep something back
@@ -1053,7 +1118,7 @@ func main() {
 	fam := boundaryFamily()
 	for i, in := range fam {
 		// quick tier: a seeded third of the family; thorough: all of it
-		if r.Thorough() || g.Intn(3) == 0 || i%97 == 0 {
+		if r.Thorough() || g.Intn(3) == 0 || i%97 == 0 || strings.HasPrefix(in.Note, "boundary:variable-spelling") || in.Note == "boundary:save-then-credit" {
 			one(r, in)
 			r.Count("boundary-family")
 		}
@@ -1076,6 +1141,16 @@ func main() {
 		in.Note = "ill-typed"
 		one(r, in)
 		r.Count("ill-typed-stream")
+	}
+	// nothing of one execution may survive into another (C12 determinism, C08): the first executions of the run,
+	// repeated at its end, must give what they gave
+	for _, fo := range firstObs {
+		again := observe(fo.in)
+		if !sameObs(fo.ob, again) {
+			r.FailP("C12", "residue:later-run-differs", fo.in, fmt.Sprintf("at first %s/%s %v, at the end of the run %s/%s %v", fo.ob.Stage, fo.ob.Class, fo.ob.Postings, again.Stage, again.Class, again.Postings), len(fo.in.Script))
+			r.FailP("C08", "residue:later-run-differs", fo.in, fmt.Sprintf("at first %s/%s, at the end of the run %s/%s", fo.ob.Stage, fo.ob.Class, again.Stage, again.Class), len(fo.in.Script))
+			break
+		}
 	}
 	r.Finish()
 }
